@@ -91,58 +91,11 @@ Fixpoint hrun (c : hcfg) (st : hastate * list blk) (ops : list hop) : option (ha
   | o :: r => match hstep c st o with None => None | Some st' => hrun c st' r end
   end.
 
-(* the buffer: base > 0, does not wrap, and is large enough for the two boundary headers *)
+(* the buffer: base > 0, does not reach the last few bytes of the address space, and is large
+   enough for the two boundary headers *)
 Definition hcfg_ok (c : hcfg) : Prop :=
-  0 < h_base c /\ h_base c + h_size c + ALLOC_ALIGN <= two64 /\
+  0 < h_base c /\ h_base c + h_size c + ALLOC_ALIGN + MIN_ALLOC_SIZE <= two64 /\
   2 * NODE + ALLOC_ALIGN <= h_size c.
 
 Definition hop_usize (o : hop) : Prop :=
   match o with HAlloc n | HRealloc _ n => usize n | _ => True end.
-(* domain of the partial theorem: sizes below 2^63 *)
-Definition hop_dom (o : hop) : Prop :=
-  match o with HAlloc n | HRealloc _ n => 0 <= n < two63 | _ => True end.
-
-Definition heap_safe_full : Prop :=
-  forall c ops s live, hcfg_ok c -> Forall hop_usize ops ->
-    hrun c (ha_init_state, []) ops = Some (s, live) ->
-    good_blocks (h_base c) (h_size c) ALLOC_ALIGN live.
-
-(* full-strength internal invariant: no two adjacent free chunks, in every reachable state *)
-Definition heap_no_adjacent_free_full : Prop :=
-  forall c ops s live, hcfg_ok c -> Forall hop_dom ops ->
-    hrun c (ha_init_state, []) ops = Some (s, live) -> no_adjacent_free (ha_chunks s).
-
-(* after everything has been released, the largest request that a fresh heap satisfies is
-   satisfied again *)
-Definition heap_release_all_restores_full : Prop :=
-  forall c ops s n p0 s0, hcfg_ok c -> Forall hop_dom ops ->
-    hrun c (ha_init_state, []) ops = Some (s, []) ->
-    0 <= n < two63 ->
-    ha_alloc c ha_init_state n = HOk (s0, p0) -> p0 <> 0 ->
-    exists s' p, ha_alloc c s n = HOk (s', p) /\ p <> 0.
-
-(* "this realloc shrinks its chunk in place, splits it, and the chunk after it is free": the one
-   situation in which the unchanged code leaves two adjacent free chunks *)
-Definition realloc_splits_before_free (chunks : list chunk) (p n : Z) : bool :=
-  match find_chunk (w64 (p - NODE)) chunks with
-  | Some (pre, x, post) =>
-      let size := aligned_size n in
-      negb (size >? c_sz x) && (c_sz x >? size) && wants_split x size &&
-      match post with nx :: _ => negb (c_used nx) | [] => false end
-  | None => false
-  end.
-
-Fixpoint hrun_dom (c : hcfg) (st : hastate * list blk) (ops : list hop) : Prop :=
-  match ops with
-  | [] => True
-  | o :: r =>
-      match o with
-      | HRealloc i n =>
-          match nth_error (snd st) i with
-          | Some b => realloc_splits_before_free (ha_chunks (fst st)) (b_addr b) n = false
-          | None => True
-          end
-      | _ => True
-      end /\
-      match hstep c st o with None => True | Some st' => hrun_dom c st' r end
-  end.
